@@ -477,6 +477,19 @@ where
                 self.metrics.send_packets_sent.inc();
                 Ok(())
             }
+            // A packet that can not be encoded for this client (empty, or too large once the
+            // relay-to-client framing is added) is the sender's doing: drop the packet, never
+            // the receiving connection.
+            Err(WriteFrameError::Stream {
+                source:
+                    err @ (RelaySendError::EmptyPacket { .. }
+                    | RelaySendError::ExceedsMaxPacketSize { .. }),
+                ..
+            }) => {
+                debug!("dropping packet that can not be forwarded: {err:#}");
+                self.metrics.send_packets_dropped.inc();
+                Ok(())
+            }
             Err(err) => {
                 self.metrics.send_packets_dropped.inc();
                 Err(err)
